@@ -561,6 +561,7 @@ REGISTRY = {
     "C10": {
         "jobs": jobs_c10,
         "post": post_c10,
+        "custom_replay": native.replay_c10,
         "level": "proof",
         "functions": ["anstyle_lossy::distance (MIR -> SMT-LIB, integers with explicit wrapping)", "anstyle_lossy::palette::Palette::{find_match,get,index,rgb_from_ansi,rgb_from_index}", "anstyle_lossy::{find_xterm_match,rgb_to_xterm,rgb_to_ansi,xterm_to_ansi,xterm_to_rgb,ansi_to_rgb,color_to_rgb,color_to_xterm,color_to_ansi}", "XTERM_COLORS table", "anstyle::RgbColor::{r,g,b} (read off the anstyle crate's MIR)"],
         "bounds": {"quick": "K1 over all 2^48 colour pairs (no bound); K2 over every query colour, every (tagged) 16-entry palette and every distance table; the 240-candidate scan over every table with <=4 distinct values; K3 over all colours/indices/palettes", "thorough": "the 240-candidate scan over every u8 table (no bound left)"},
